@@ -347,17 +347,20 @@ PROPS["C18"] = {
     "theorems": [
         "GstProofs.C18.rotation_roundtrip", "GstProofs.C18.factors_roundtrip", "GstProofs.C18.factors_whitened",
         "GstProofs.C18.rank_monotone", "GstProofs.C18.hermite_orthogonal_below_12",
+        "GstProofs.C18.hermite_orthogonal", "GstProofs.C18.hermite_table_all", "GstProofs.C18.hermite_norm",
+        "GstProofs.C18.hermite_centred", "GstProofs.C18.hermite_values",
+        "GstProofs.Trans.E_stein", "GstProofs.Trans.H_deriv_succ", "GstProofs.Trans.H_succ", "GstProofs.Trans.toPoly_pmul",
         "GstProofs.C18.extend_roundtrip", "GstProofs.C18.extend_ends", "GstProofs.C18.extend_mono",
     ],
     "harnesses": ["vh_c18"],
     "level": "proof",
     "technique": "Lean 4 theorems (Mathlib matrices, any dimension): an orthogonal change of coordinates followed by its transpose is the identity and preserves norms; variables -> factors -> variables is the identity whenever the back-transformation is a left inverse of the forward one (centring included); factors built from an orthonormal eigen-basis scaled by inverse square roots of the eigenvalues have the identity as covariance; ranks are monotone; exact orthogonality table of the Hermite polynomials below degree 12 (integer arithmetic on Gaussian moments). Correspondence on the library: Hermite values against the model's recurrence, rotations, PCA and MAF round trips and whitening, normal-score monotonicity, Hermite and empirical anamorphosis raw -> Gaussian -> raw and monotonicity inside the reported practical interval, all judged by the Lean driver",
-    "level_text": "Partial proof: the linear-algebra identities behind rotations and factor transforms and the monotonicity of ranks are theorems; Hermite orthonormality is proved as a finite exact table (degree < 12), not for every degree; the anamorphosis inversion is numerical (root finding) and is tied by correspondence only, with the accuracy stated in the harness (1e-3 of the raw range for Hermite, 2e-2 for the empirical anamorphosis).",
+    "level_text": "Partial proof: the linear-algebra identities behind rotations and factor transforms and the monotonicity of ranks are theorems; Hermite orthogonality E[He_m He_n] = n! delta_mn is a theorem for every pair of degrees (Stein identity on the moment functional, induction), and the recurrence values compared with the library are the values of these polynomials; the anamorphosis inversion is numerical (root finding) and is tied by correspondence only, with the accuracy stated in the harness (1e-3 of the raw range for Hermite, 2e-2 for the empirical anamorphosis).",
     "level_note": "Trusted: Lean kernel + 3 standard axioms; the factor variance is checked with the n-1 divisor used by the library; fitted Hermite anamorphoses that are not increasing inside their practical interval are counted, not judged.",
     "rule": "per configuration: Hermite polynomial values at a random dyadic y for 1-14 degrees; 2-D / 3-D rotation with random angles (direct/inverse both ways, norm); 30-80 samples of 2-4 correlated variables: PCA and MAF (factors centred, unit variance, uncorrelated, Z->F->Z); normal scores; Hermite (10-40 polynomials) and empirical (30-100 classes) anamorphoses fitted on 200 skewed values, 12 round trips each. distinct = distinct request line",
     "trivial": lambda line: False,
     "trusted_base": TB_COMMON,
-    "uncovered": ["Hermite orthonormality for every degree (finite table only)", "accuracy of the numerical inversion is a stated tolerance, not a theorem", "discrete anamorphoses (DD, IR), change of support"],
+    "uncovered": ["accuracy of the numerical inversion is a stated tolerance, not a theorem", "discrete anamorphoses (DD, IR), change of support"],
     "assumptions": ["anamorphosis round trips are required inside the practical interval reported by the fitted object"],
 }
 
